@@ -112,17 +112,20 @@ func (s *spyServer) Publish(vaaBytes []byte) error {
 	defer s.subsMu.Unlock()
 
 	var v *vaa.VAA
+	var decodeErr error
 
 	for _, sub := range s.subs {
 		if len(sub.filters) == 0 {
 			sub.ch <- message{vaaBytes: vaaBytes}
 		} else {
-			if v == nil {
-				var err error
-				v, err = vaa.Unmarshal(vaaBytes)
-				if err != nil {
-					return err
-				}
+			if v == nil && decodeErr == nil {
+				v, decodeErr = vaa.Unmarshal(vaaBytes)
+			}
+			if decodeErr != nil {
+				// Filters cannot be evaluated on a VAA that does not decode. Do not return here:
+				// the subscribers without filters that come later in the (random) map order
+				// must still get the raw bytes.
+				continue
 			}
 
 			for _, fi := range sub.filters {
@@ -133,7 +136,7 @@ func (s *spyServer) Publish(vaaBytes []byte) error {
 		}
 	}
 
-	return nil
+	return decodeErr
 }
 
 func (s *spyServer) SubscribeSignedVAA(req *spyv1.SubscribeSignedVAARequest, resp spyv1.SpyRPCService_SubscribeSignedVAAServer) error {
